@@ -187,7 +187,7 @@ fn history3(t1: usize, t2: usize, t3: usize) -> ([bool; 3], [bool; 3], RefList) 
     ([r1, r2, r3], [d1, d2, d3], reference)
 }
 
-// @harness props=C20 tier=quick mem=4 t=1500 fn="RrsetList::add,RrsetList::lookup,RrsetList::iter,RdataSetOwned::insert,RdataSet::iter"
+// @harness props=C20 tier=quick mem=2 t=900 fn="RrsetList::add,RrsetList::lookup,RrsetList::iter,RdataSetOwned::insert,RdataSet::iter"
 //   bound="history of 3 adds with types TXT, A, TXT (class IN): each add has any u32 TTL and any 2-octet RDATA; then lookup of TXT, A, AAAA, NS and a full iteration; unwind 6"
 //   sym="3 x (ttl:u32, rdata:[u8;2])" cbmc="--max-field-sensitivity-array-size 1024" kani="--no-assertion-reach-checks"
 #[kani::proof]
@@ -199,7 +199,7 @@ fn c20_rrsetlist_txt_a_txt() {
     kani::cover!(reference.sets[0].n == 2 && reference.sets[1].n == 1, "TXT RRset with two RDATA, A RRset inserted in front of it");
 }
 
-// @harness props=C20 tier=thorough mem=4 t=1500 fn="RrsetList::add,RrsetList::lookup,RrsetList::iter,RdataSetOwned::insert,RdataSet::iter"
+// @harness props=C20 tier=thorough mem=2 t=900 fn="RrsetList::add,RrsetList::lookup,RrsetList::iter,RdataSetOwned::insert,RdataSet::iter"
 //   bound="history of 3 adds with types A, A, TXT; TTLs and RDATA symbolic; unwind 6"
 //   sym="3 x (ttl:u32, rdata:[u8;2])" cbmc="--max-field-sensitivity-array-size 1024" kani="--no-assertion-reach-checks"
 #[kani::proof]
@@ -212,7 +212,7 @@ fn c20_rrsetlist_a_a_txt() {
     kani::cover!(reference.sets[1].ttl == 0 && reference.sets[1].n == 2, "two records whose TTLs agree after RFC 2181 normalisation");
 }
 
-// @harness props=C20 tier=thorough mem=4 t=1500 fn="RrsetList::add,RrsetList::lookup,RrsetList::iter,RdataSetOwned::insert,RdataSet::iter"
+// @harness props=C20 tier=thorough mem=2 t=900 fn="RrsetList::add,RrsetList::lookup,RrsetList::iter,RdataSetOwned::insert,RdataSet::iter"
 //   bound="history of 3 adds with types AAAA, TXT, A (three RRsets, each new one sorts before the previous); TTLs and RDATA symbolic; unwind 6"
 //   sym="3 x (ttl:u32, rdata:[u8;2])" cbmc="--max-field-sensitivity-array-size 1024" kani="--no-assertion-reach-checks"
 #[kani::proof]
